@@ -22,14 +22,51 @@ def sh(cmd, cwd=None, env=None, timeout=1800):
     return p.returncode, (p.stdout + p.stderr)
 
 
+def run_checks(patch, pid, n):
+    """apply the patch to /repo, run every registered quick check, undo the patch at once"""
+    rc, o = sh('git status --porcelain', cwd='/repo')
+    if o.strip():
+        print('/repo is not clean; refusing', o)
+        return None
+    caught = {}
+    try:
+        rc, o = sh('git apply %s' % patch, cwd='/repo')
+        if rc != 0:
+            rc, o = sh('patch -p1 -s --no-backup-if-mismatch < %s' % patch, cwd='/repo')
+        if rc != 0:
+            print('patch does not apply to /repo', o)
+            return None
+        man = json.load(open(os.path.join(VERIF, 'MANIFEST.json')))
+        evdir = '/var/tmp/seed-ev-%s-%s' % (pid, n)
+        for c in man['checks']:
+            p = c['property_id']
+            r, oo = sh(c['quick_cmd'], cwd=VERIF, env=dict(os.environ, VERIF_EVIDENCE_DIR=evdir), timeout=600)
+            if r != 0:
+                rules = sorted({l.split('rule=')[1].split()[0] for l in oo.splitlines() if 'violated: rule=' in l})
+                caught[p] = {'rc': r, 'rules': rules, 'tail': [l for l in oo.splitlines() if 'ANALYSIS' in l][:2]}
+        shutil.rmtree(evdir, ignore_errors=True)
+    finally:
+        sh('git checkout -- .', cwd='/repo')
+        sh('git clean -fdq src testing', cwd='/repo')
+    return caught
+
+
 def main():
     ap = argparse.ArgumentParser()
     ap.add_argument('prop')
     ap.add_argument('n')
     ap.add_argument('--tests', default='')
     ap.add_argument('--needs', default='')
+    ap.add_argument('--recheck', action='store_true', help='only re-run the checks on the stored patch and update caught_by')
     a = ap.parse_args()
     pid, n = a.prop.upper(), a.n
+    if a.recheck:
+        d = os.path.join(VERIF, 'seeded', '%s-%s' % (pid, n))
+        meta = json.load(open(os.path.join(d, 'meta.json')))
+        meta['caught_by'] = run_checks(os.path.join(d, 'patch.diff'), pid, n)
+        json.dump(meta, open(os.path.join(d, 'meta.json'), 'w'), indent=1)
+        print('%s-%s caught by:' % (pid, n), {k: v['rules'] or v['tail'] for k, v in meta['caught_by'].items()})
+        return 0
     wt = '/tmp/seed/wt_%s' % pid
     out = '/tmp/seed/out_%s' % pid
     patch = os.path.join(out, 'change%s.diff' % n)
@@ -46,7 +83,7 @@ def main():
     if rc != 0:
         print('patch does not apply:', o)
         return 2
-    touched = [l[6:] for l in open(patch) if l.startswith('+++ b/')]
+    touched = [l[6:].strip() for l in open(patch) if l.startswith('+++ b/')]
     res['files'] = touched
     needs_build = any(t.endswith(('.c', '.h')) and t.startswith('src/c') for t in touched)
     # clean state
@@ -70,28 +107,9 @@ def main():
     sh('git checkout -- .', cwd=wt)
     if needs_build:
         sh('/venv/bin/python setup.py build_ext -i -f', cwd=wt)
-    # now the checks, on /repo itself
-    rc, o = sh('git status --porcelain', cwd='/repo')
-    if o.strip():
-        print('/repo is not clean; refusing', o)
+    caught = run_checks(patch, pid, n)
+    if caught is None:
         return 2
-    caught = {}
-    try:
-        rc, o = sh('git apply %s' % patch, cwd='/repo')
-        if rc != 0:
-            print('patch does not apply to /repo', o)
-            return 2
-        man = json.load(open(os.path.join(VERIF, 'MANIFEST.json')))
-        evdir = '/var/tmp/seed-ev-%s-%s' % (pid, n)
-        for c in man['checks']:
-            p = c['property_id']
-            r, oo = sh(c['quick_cmd'], cwd=VERIF, env=dict(os.environ, VERIF_EVIDENCE_DIR=evdir), timeout=600)
-            if r != 0:
-                rules = sorted({l.split('rule=')[1].split()[0] for l in oo.splitlines() if 'violated: rule=' in l})
-                caught[p] = {'rc': r, 'rules': rules, 'tail': [l for l in oo.splitlines() if 'ANALYSIS' in l][:2]}
-        shutil.rmtree(evdir, ignore_errors=True)
-    finally:
-        sh('git checkout -- .', cwd='/repo')
     res['caught_by'] = caught
     res['needs'] = a.needs
     d = os.path.join(VERIF, 'seeded', '%s-%s' % (pid, n))
